@@ -255,6 +255,10 @@ SUPPLEMENTED = {
 }
 
 
+# ml operators for which ONNX infers an element type and no shape (Binarizer: the input type as it is)
+ML_ELEM_ONLY = {"Scaler", "LinearRegressor", "Normalizer", "Imputer", "Binarizer"}  # (ArrayFeatureExtractor, OneHotEncoder: ONNX infers a shape too)
+
+
 def is_supplemented(op: Op) -> bool:
     return (op.domain, op.name, op.schema().since_version) in SUPPLEMENTED
 
@@ -1698,6 +1702,11 @@ def model_request(op: Op, call, sp: dict) -> Optional[dict]:
         sp["proto_obs"] = {"to": real_to, "from": real_from}
     except Exception as e:  # noqa: BLE001
         sp["proto_obs_error"] = f"{type(e).__name__}: {e}"[:200]
+    # ONNX's own answer for the ml operators whose inference spox replaces (model: MLOnnx.onnxMlElem)
+    if op.name in ML_ELEM_ONLY and call["args"] and isinstance(call["args"][0], int):
+        t0 = call["vars"][call["args"][0]]["ty"]
+        if t0 is not None and "t" in t0 and t0["t"] in (1, 11, 6, 7, 9, 8):
+            req["ml_onnx"] = {"op": op.name, "elem": t0["t"]}
     if "formals" in sp["node"] and not any(has_other(t) for t in sp["node"]["formals"]["real"]):
         req["formals"] = {k: v for k, v in sp["node"]["formals"].items() if k != "real"}
     for k in ("loop", "compress"):
